@@ -675,6 +675,217 @@ def check_lowpass(chk, ctx, case, do_model=True):
     chk.sample(dict(nseq=nseq, nsub=nsub, regime=regime, F=[p['F'] for p in pops], total_in=tot_in, total_out=tot_out,
                     simulated_entries=(None if use_sim_mat is None else int(use_sim_mat.sum()))))
 
+# --------------------------------------------------------------------------- the simulated path: statistics
+ZSIG = 6.0          # standard deviations allowed for Monte-Carlo frequencies (calibrated: observed <= 4.3 over seeds 0..3, both tiers)
+
+def subsample_exact(g_called, m):
+    """distribution of the allele count when m of the called individuals (genotypes g_called) are drawn without replacement"""
+    tot = math.comb(len(g_called), m)
+    out = {}
+    for c in itertools.combinations(range(len(g_called)), m):
+        s = sum(g_called[i] for i in c)
+        out[s] = out.get(s, 0) + Fraction(1, tot)
+    return out
+
+def stat_tol(p, n, slack=0.0):
+    return ZSIG * math.sqrt(max(p * (1 - p), 0.0) / n) + slack
+
+def check_subsample(chk, ctx, sc):
+    """`subsample_genotypes_1D` on L copies each of a few locus patterns (genotypes 0/1/2, 99 = not called): rows with fewer
+    than nsub/2 calls are dropped, every kept row consists of called genotypes only, and the subsampled allele count follows
+    the hypergeometric law "nsub/2 of the called individuals at random" — for fully called and for partly called loci."""
+    LP = fresh_LP(ctx)
+    inp = dict(kind='subsample', patterns=[list(map(int, g)) for g in sc['patterns']], L=int(sc['L']), nsub=int(sc['nsub']), seed=int(sc['seed']))
+    pats = inp['patterns']; L = inp['L']; nsub = inp['nsub']; m = nsub // 2
+    N = len(pats[0])
+    prng = np.random.default_rng(inp['seed'] + 1)
+    rows = []; owner = []
+    for k, g in enumerate(pats):
+        for _ in range(L):
+            rows.append([g[i] for i in prng.permutation(N)]); owner.append(k)      # the individuals' order is irrelevant
+    perm = prng.permutation(len(rows))
+    calls = np.array([rows[i] for i in perm], dtype=int); owner = np.array([owner[i] for i in perm])
+    LP.rng = np.random.default_rng(inp['seed'])
+    try:
+        sub = np.asarray(LP.subsample_genotypes_1D(calls.copy(), nsub))
+    except Exception as e:
+        chk.fail('subsample_genotypes_1D:raises:%s' % type(e).__name__, 'subsample_genotypes_1D raises %r' % (e,), inp); return
+    ncalled = [sum(1 for v in g if v != 99) for g in pats]
+    chk.l3(('subsample', N, m, tuple(sorted(set('full' if c == N else ('dropped' if c < m else 'partial') for c in ncalled))), m == N))
+    kept = [k for k in range(len(pats)) if ncalled[k] >= m]
+    if sub.ndim != 2 or sub.shape != (L * len(kept), m):
+        chk.fail('subsample_genotypes_1D:shape', 'result shape %r, expected %d kept loci x %d individuals' % (sub.shape, L * len(kept), m), inp); return
+    if sub.size and (sub.max() > 2 or sub.min() < 0):
+        chk.fail('subsample_genotypes_1D:missing-kept', 'a subsample contains a value outside {0,1,2} (an uncalled genotype was drawn)', inp); return
+    # the output is grouped by the number of called individuals (ascending); patterns with equal counts are pooled
+    groups = {}
+    for k in kept: groups.setdefault(ncalled[k], []).append(k)
+    pos = 0
+    for c in sorted(groups):
+        ks = groups[c]
+        block = sub[pos:pos + L * len(ks)]; pos += L * len(ks)
+        sums = block.sum(axis=1)
+        n = len(sums)
+        ex = {}
+        for k in ks:
+            for sv, pr in subsample_exact([v for v in pats[k] if v != 99], m).items():
+                ex[sv] = ex.get(sv, 0) + pr / len(ks)
+        mean_ex = float(sum(sv * pr for sv, pr in ex.items())); var_ex = float(sum(sv * sv * pr for sv, pr in ex.items())) - mean_ex ** 2
+        mean = float(sums.mean())
+        what = 'loci with %d of %d individuals called (patterns %r), %d of them subsampled, %d loci' % (c, N, [pats[k] for k in ks], m, n)
+        if abs(mean - mean_ex) > ZSIG * math.sqrt(max(var_ex, 0.0) / n) + 1e-12:
+            chk.fail('subsample_genotypes_1D:mean', '%s: mean subsampled allele count %.4f, drawing individuals at random gives %.4f (sd of the mean %.2g)'
+                     % (what, mean, mean_ex, math.sqrt(max(var_ex, 0.0) / n)), inp)
+            continue
+        bad = None
+        for sv in range(2 * m + 1):
+            pr = float(ex.get(sv, 0)); fq = float(np.mean(sums == sv))
+            chk.stats['mc_max_sigma'] = max(chk.stats.get('mc_max_sigma', 0.0), abs(fq - pr) / math.sqrt(pr * (1 - pr) / n) if 0 < pr < 1 else 0.0)
+            if abs(fq - pr) > stat_tol(pr, n):
+                bad = (sv, fq, pr); break
+        if bad:
+            chk.fail('subsample_genotypes_1D:distribution', '%s: allele count %d has frequency %.4f, the hypergeometric law gives %.4f' % ((what,) + bad), inp)
+        elif have_driver(ctx) and len(ks) == 1:
+            # K (statistical): the model's exact `projection_inbreeding` row for the called genotypes
+            g = sorted(v for v in pats[ks[0]] if v != 99)
+            out = ctx['driver'].ask('lp_projinb %s %d' % (','.join(map(str, g)), 2 * m))
+            if out.startswith('ok '):
+                row = parse_floats(out[3:])
+                okk = all(abs(float(np.mean(sums == sv)) - row[sv]) <= stat_tol(row[sv], n) for sv in range(2 * m + 1))
+                chk.k_ok('subsample:projinb') if okk else chk.k_bad('subsample:projinb', inp, [float(np.mean(sums == sv)) for sv in range(2 * m + 1)], row, None)
+            else:
+                chk.k_bad('subsample:projinb', inp, None, out, None)
+
+def gen_subsample(rng, tier):
+    N = int(rng.integers(2, 11))
+    m = int(rng.integers(1, N + 1))
+    if rng.random() < 0.7 and N > 1:
+        m = int(rng.integers(1, N))                    # genuinely subsampling
+    pats = []
+    def geno():
+        kind = int(rng.integers(4))
+        if kind == 0: g = [0] * N; g[int(rng.integers(N))] = 1                       # a singleton
+        elif kind == 1: g = [int(v) for v in rng.integers(0, 3, N)]
+        elif kind == 2: g = [int(v) for v in rng.choice([0, 2], N)]                   # homozygotes only
+        else: g = [int(v) for v in rng.choice([0, 1, 2], N, p=[0.7, 0.2, 0.1])]
+        return g
+    pats.append(geno())                                                               # fully called
+    used = {N}
+    for _ in range(int(rng.integers(1, 4))):
+        g = geno()
+        c = int(rng.integers(0, N))                                                   # number called < N
+        if c in used: continue
+        used.add(c)
+        miss = rng.permutation(N)[:N - c]
+        for i in miss: g[int(i)] = 99
+        pats.append(g)
+    if rng.random() < 0.3:
+        pats = pats[1:] or pats                                                       # sometimes no fully called locus at all
+    if rng.random() < 0.3:
+        pats = pats[:1]                                                               # sometimes only one pattern
+    if not any(sum(1 for v in g if v != 99) >= m for g in pats):
+        m = max(1, max(sum(1 for v in g if v != 99) for g in pats))                   # the caller only passes loci with enough calls; keep at least one pattern
+        if m == 1 and not any(sum(1 for v in g if v != 99) >= 1 for g in pats):
+            pats = [geno()]
+    return dict(patterns=pats, L=int(3000 if tier == 'quick' else 6000), nsub=2 * m, seed=int(rng.integers(1, 2 ** 31)))
+
+def exact_projrow(nseq, nsub, F, af):
+    """P(allele count j among nsub/2 of the nseq/2 individuals | allele count af among all), genotype configurations drawn
+    from the F = 0 / inbreeding law: for F = 0 this is the hypergeometric law on haplotypes"""
+    if F == 0:
+        return np.array([math.comb(af, j) * math.comb(nseq - af, nsub - j) / math.comb(nseq, nsub) if 0 <= nsub - j <= nseq - af and j <= af else 0.0 for j in range(nsub + 1)])
+    n = nseq // 2
+    parts = brute_parts(af, n)
+    pr = exact_partprobs(parts, af, n, F) or [Fraction(1)]
+    row = [Fraction(0)] * (nsub + 1)
+    for q, g in zip(pr, parts):
+        for sv, w in subsample_exact(g, nsub // 2).items():
+            row[sv] += q * w
+    return np.array([float(v) for v in row])
+
+def check_sim_deep(chk, ctx, case):
+    """Simulated regime with deep coverage (every individual called, heterozygotes never miscalled): each simulated table
+    is, up to Monte-Carlo noise, the projection row of its allele counts — in particular when nsub < nseq — hence the
+    corrected model is the projected model within an explicit statistical bound; totals never increase."""
+    check_lowpass(chk, ctx, dict(case, deep=False))    # closure properties, K (assembly with the implementation's own tables); the exact identity does not apply to Monte-Carlo tables
+    inp = small_case(case, 'sim-deep')
+    pops = case['pops']; d = len(pops)
+    nseq = [p['nseq'] for p in pops]; nsub = [p['nsub'] for p in pops]
+    try:
+        with warnings.catch_warnings():
+            warnings.simplefilter('ignore')
+            model, out, pre, _ = run_lowpass(ctx, case)
+    except Exception:
+        return                                          # already reported by check_lowpass
+    chk.l3(('sim-deep', d, tuple(a == b for a, b in zip(nseq, nsub)), case['thr'] == 0, any(p['F'] > 0 for p in pops)))
+    chk.stat('sim_deep_%dpop' % d)
+    if pre is None:
+        return
+    prob_nocall_ND, use_sim_mat, _, _, sim_outputs = pre
+    use_sim_mat = np.asarray(use_sim_mat, dtype=bool)
+    Fs = [0.0 if case.get('Fx_none') else p['F'] for p in pops]
+    rows = [[exact_projrow(p['nseq'], p['nsub'], F, af) for af in range(p['nseq'] + 1)] for p, F in zip(pops, Fs)]
+    nparts = [[max(1, len(brute_parts(af, p['nseq'] // 2))) for af in range(p['nseq'] + 1)] for p in pops]
+    mdata = model_data(model)
+    shape_out = tuple(n + 1 for n in nsub)
+    expect = np.zeros(shape_out); bound = np.zeros(shape_out)
+    Dmin = min(min(i for i, v in enumerate(p['cov']) if v > 0) for p in pops)
+    eps = sum((Dmin + 2 + p['nsub']) for p in pops) * 2.0 ** (-Dmin)
+    for idx in itertools.product(*[range(n + 1) for n in nseq]):
+        E = np.ones(())
+        for ax in range(d):
+            E = np.multiply.outer(E, rows[ax][idx[ax]])
+        expect += mdata[idx] * E
+        if not use_sim_mat[idx]:
+            bound += mdata[idx] * eps
+            continue
+        so = np.asarray(sim_outputs[tuple(idx)] if tuple(idx) in sim_outputs else sim_outputs[[k for k in sim_outputs if tuple(int(a) for a in k) == tuple(idx)][0]], dtype=float)
+        if sum(idx) == 0:
+            continue                                    # no alternative allele: everything is recorded as not called (entry 0), masked in the model
+        npart = int(np.prod([nparts[ax][idx[ax]] for ax in range(d)]))
+        n_eff = max(1.0, case['nsim'] - npart)          # int() truncation of nsim * partition probability
+        slack = 2.0 * npart / case['nsim'] + eps
+        tol = ZSIG * np.sqrt(np.maximum(E * (1 - E), 0.0) / n_eff) + slack
+        bound += mdata[idx] * tol
+        dev = np.abs(so - E)
+        with np.errstate(divide='ignore', invalid='ignore'):
+            sig = np.where((E > 0) & (E < 1), (dev - slack) / np.sqrt(E * (1 - E) / n_eff), 0.0)
+        chk.stats['mc_max_sigma'] = max(chk.stats.get('mc_max_sigma', 0.0), float(np.max(sig)))
+        if np.any(dev > tol):
+            j = tuple(int(v) for v in np.unravel_index(int(np.argmax(dev - tol)), dev.shape))
+            chk.fail('simulate_GATK_multisample_calling:deep-coverage:distribution',
+                     'deep coverage (depth >= %d), nseq=%r nsub=%r F=%r, nsim=%d: the simulated call spectrum for allele counts %r is %s, subsampling %r of the sequenced haplotypes '
+                     'gives %s (entry %r off by %.3g, allowed %.3g)' % (Dmin, nseq, nsub, Fs, case['nsim'], tuple(idx), np.round(so, 4).tolist(), nsub, np.round(E, 4).tolist(), j, float(dev[j]), float(tol[j])), inp)
+            return
+    odata = np.asarray(np.ma.getdata(out), dtype=float); omask = np.array(np.ma.getmaskarray(out))
+    um = ~omask; um[tuple([0] * d)] = False; um[tuple(nsub)] = False            # the projected model masks its corners
+    scale = max(float(np.max(np.abs(mdata))), 1e-300)
+    dev = np.abs(odata - expect); lim = bound + RTOL * scale
+    if np.any(dev[um] > lim[um]):
+        w = np.where(um, dev - lim, -np.inf)
+        j = tuple(int(v) for v in np.unravel_index(int(np.argmax(w)), w.shape))
+        chk.fail('make_low_pass_func:deep-coverage:simulated', 'deep coverage (depth >= %d) with sim_threshold=%r, nseq=%r nsub=%r: the corrected model differs from the projected model '
+                 'at entry %r by %.3g (%.1f%% of the largest projected entry; Monte-Carlo bound %.3g)' % (Dmin, case['thr'], nseq, nsub, j, float(dev[j]), 100 * float(dev[j]) / max(float(expect.max()), 1e-300), float(lim[j])), inp)
+
+def gen_sim_deep(rng, tier, d=1):
+    hi = {1: 12, 2: 6}[d]
+    pops = []
+    for k in range(d):
+        nseq = 2 * int(rng.integers(2, hi // 2 + 1))
+        nsub = 2 * int(rng.integers(1, nseq // 2))                   # strictly fewer than sequenced
+        if k > 0 and rng.random() < 0.3:
+            nsub = nseq
+        if rng.random() < 0.5:
+            D = int(rng.integers(40, 81)); c = [0.0] * D + [1.0]; ck = 'point-deep'
+        else:
+            c, ck = gen_cov(rng, 'deep')
+        F = 0.0 if rng.random() < 0.6 else float(rng.choice([51, 205, 512, 922])) / 1024.0
+        pops.append(dict(cov=c, cov_kind=ck, nseq=nseq, nsub=nsub, F=F))
+    shape = [p['nseq'] + 1 for p in pops]
+    data, mk = gen_model(rng, shape, kind=['neutral', 'random', 'one-entry', 'spike'][int(rng.integers(4))])
+    thr = 0.0 if rng.random() < 0.7 else float(rng.choice([1e-30, 1e-20]))      # deep coverage: tiny thresholds still send many entries to the simulator
+    return dict(pops=pops, thr=thr, nsim=int({1: 2000, 2: 1000}[d]), sim_seed=int(rng.integers(1, 2 ** 31)), data=data, mask=None, model_kind=mk, Fx_none=False, deep=True)
+
 # --------------------------------------------------------------------------- several low-pass functions in one process
 CHILD = ("import sys, json\nsys.path[:0] = [%r, %r, %r]\nimport warnings; warnings.filterwarnings('ignore')\nimport logging; logging.disable(logging.WARNING)\n"
          "from harness import c18\nc18._child()\n")
@@ -1001,6 +1212,11 @@ def run(chk, ctx):
     plan += [(1, 'analytic', True)] * (10 if quick else 60) + [(2, 'analytic', True)] * (5 if quick else 30) + [(1, 'mixed', True)] * (4 if quick else 16) + [(3, 'analytic', True)] * (2 if quick else 8)
     for d, regime, deep in plan:
         check_lowpass(chk, ctx, gen_lowpass_case(rng, tier, d=d, regime=regime, deep=deep))
+    # ---- the simulated path: subsampling of called genotypes, deep-coverage identity with nsub < nseq (statistical)
+    for it in range(40 if quick else 250):
+        check_subsample(chk, ctx, gen_subsample(rng, tier))
+    for it in range(8 if quick else 40):
+        check_sim_deep(chk, ctx, gen_sim_deep(rng, tier, d=1 if it % 4 else 2))
     # ---- several low-pass functions in one process (same population names): history independence
     nh = 40 if quick else 220
     for it in range(nh):
@@ -1038,6 +1254,10 @@ def replay(chk, ctx, data):
         check_enough(chk, ctx, [float(v) for v in inp['cov']], int(inp['nseq']), int(inp['nsub']))
     elif kind == 'lowpass':
         check_lowpass(chk, ctx, case_from_json(inp))
+    elif kind == 'sim-deep':
+        check_sim_deep(chk, ctx, case_from_json(inp))
+    elif kind == 'subsample':
+        check_subsample(chk, ctx, inp)
     elif kind == 'history':
         check_history(chk, ctx, dict(what=inp.get('what', 'replay'), funcs=[case_from_json(c) for c in inp['funcs']], order=[int(k) for k in inp['order']],
                                      build_first=bool(inp.get('build_first')), reference=inp.get('reference', 'reload')))
